@@ -22,15 +22,16 @@ import sys
 
 ID = "C12"
 DRIVER = "drv_c12"
-LEAN_TARGETS = ["PharmpyProofs.C12.Properties", "drv_c12"]
-PROPERTIES = ["PharmpyProofs/C12/Properties.lean"]
+LEAN_TARGETS = ["PharmpyProofs.C12.Properties", "PharmpyProofs.C12.DoseProperties", "drv_c12"]
+PROPERTIES = ["PharmpyProofs/C12/Properties.lean", "PharmpyProofs/C12/DoseProperties.lean"]
 LEAN_SOURCES = ["PharmpyModel/C12/*.lean", "PharmpyProofs/C12/*.lean", "Drivers/C12.lean", "PharmpyModel/Core/Sexp.lean"]
 TIME_LIMIT = {"quick": 900, "thorough": 3000}
 CASE_CPU_LIMIT = 60
 RULE = ("kind=model: generic models generated from one seed (1-5 named compartments added in a seeded order with seeded "
         "builder ops incl. overwritten/removed flows and removed+re-added compartments, bolus/infusion doses, lag/bioavailability, "
         "normal and joint normal etas, 1-3 estimation/simulation steps with options, 4-7 data columns, 3-8 data rows, "
-        "optional Statements.subs relabelling); kind=pheno: load_example_model('pheno') followed by 0-4 seeded "
+        "optional Statements.subs relabelling; infusion rate/duration and bolus amount over the whole value class - symbolic, "
+        "numeric, integer/float zero - given directly or reached by Dose.subs with a seeded map); kind=pheno: load_example_model('pheno') followed by 0-4 seeded "
         "pharmpy.modeling transformations; kind=procs: 2-3 such models hashed in 4 fresh interpreters with different "
         "PYTHONHASHSEED. Every case runs every K request and monitor on every component. non-trivial = has an ODE system "
         "with >= 2 compartments or >= 1 transformation; distinct = distinct case JSON")
@@ -62,7 +63,13 @@ PHENO_TRANSFORMS = [
     "foabs", "zoabs", "seqabs", "periph", "transit1", "transit2", "lag", "joint", "properr", "comberr", "fix", "init",
     "zoelim", "mmelim", "mixelim", "est_imp", "evalstep", "deriv", "sim", "rename", "iov", "metab", "bio", "effect",
     "lower", "solver", "subs_amt", "covar", "iiv_remove", "toolopt", "ie", "ie", "obstrans",
+    "inf_dur", "inf_rate", "inf_dur_subs0", "inf_rate_subs0", "inf_dur_subs", "dose_subs0",
 ]
+
+# values an infusion's rate / duration (or a bolus amount) takes: symbolic, numeric, and the degenerate ones a
+# transformation such as subs({D1: 0}) leaves behind (integer zero, zero after simplification, float zero, one)
+DOSE_VALUES = ["RATE", "R1", "AMT/D1", "D1", "DUR", "2*D1", "0", "0", "D1 - D1", "0*R1", "0.0", "1", "2.5"]
+DOSE_SUBS_VALUES = ["0", "0", "0", "1", "0.0", "DX", "2*DX"]
 
 
 import math
@@ -124,12 +131,23 @@ def gen_model_spec(rng):
                 amt = rng.choice(["AMT", "AMT", "AMT*2", "DOSE2"])
                 admid = rng.randint(1, 2)
                 k = rng.random()
-                if k < 0.55:
+                if k < 0.4:
                     doses.append(["bolus", amt, admid])
-                elif k < 0.8:
+                elif k < 0.55:
                     doses.append(["infusion", amt, admid, "rate", rng.choice(["RATE", "R1", "AMT/D1"])])
-                else:
+                elif k < 0.7:
                     doses.append(["infusion", amt, admid, "duration", rng.choice(["D1", "DUR", "2*D1"])])
+                else:
+                    # the whole value class, incl. the degenerate values, given directly or reached by Dose.subs
+                    which = rng.choice(["rate", "duration"])
+                    if rng.random() < 0.5:
+                        doses.append(["infusion", amt, admid, which, rng.choice(DOSE_VALUES)])
+                    else:
+                        sym = rng.choice(["R1", "D1", "DUR"])
+                        doses.append(["infusion", amt, admid, which, rng.choice([sym, sym, "2*" + sym, "AMT/" + sym]),
+                                      {sym: rng.choice(DOSE_SUBS_VALUES)}])
+                if doses[-1][0] == "bolus" and rng.random() < 0.15:
+                    doses[-1].append({"AMT": rng.choice(DOSE_SUBS_VALUES)})      # Bolus.subs
         comps.append({
             "name": nm,
             "doses": doses,
@@ -227,7 +245,7 @@ def gen_model_spec(rng):
             e = f"POP_{s}" if rng.random() < 0.6 else f"POP_{s}*WGT/70"
         stmts.append(["=", s, e])
         defined.append(s)
-    for aux in ["ALAG", "BIO", "KIN", "RATE", "R1", "D1", "DUR", "DOSE2"]:
+    for aux in ["ALAG", "BIO", "KIN", "RATE", "R1", "D1", "DUR", "DOSE2", "DX"]:
         used = any(aux in (c["lag"] + c["bio"] + c["input"] + json.dumps(c["doses"])) for c in comps)
         if used and aux not in colnames:
             stmts.append(["=", aux, gen_expr(rng, defined)])
@@ -372,6 +390,14 @@ def deriv_witness_spec():
     return spec
 
 
+def inf_zero_witness_spec():
+    """An infusion whose rate is a symbol that a transformation (Infusion.subs) then fixes to the integer 0."""
+    spec = f4_witness_spec()
+    spec["comps"][0]["doses"] = [["infusion", "AMT", 1, "rate", "R1", {"R1": "0"}]]
+    spec["comps"][1]["doses"] = [["infusion", "AMT", 2, "duration", "2*D1", {"D1": "0"}]]
+    return spec
+
+
 def gen_cases(rng, n, tier):
     out = []
     n_procs = max(2, n // 28)
@@ -406,6 +432,8 @@ def corpus_cases():
         {"kind": "model", "spec": {"kind": "pheno", "transforms": []}, "seed": 4},
         {"kind": "model", "spec": {"kind": "pheno", "transforms": ["foabs", "periph", "transit2", "joint"]}, "seed": 5},
         {"kind": "model", "spec": dict(f4_witness_spec(), dv_str=True), "seed": 7},
+        {"kind": "model", "spec": {"kind": "pheno", "transforms": ["inf_dur_subs0"]}, "seed": 9},   # infusion whose duration became 0 by subs
+        {"kind": "model", "spec": inf_zero_witness_spec(), "seed": 10},                 # rate 0 by Infusion.subs in a generated model
         {"kind": "model", "spec": {"kind": "pheno", "transforms": ["ie"]}, "seed": 8},  # individual estimates (int index labels)    # str keys of dependent_variables
     ]
 
@@ -533,6 +561,27 @@ def apply_transform(m, t):
         return m.replace(initial_individual_estimates=make_ie(PHENO_IE))
     if t == "obstrans":
         return m.replace(observation_transformation={Expr.symbol("Y"): Expr("log(Y)")})
+    if t in ("inf_dur", "inf_rate", "inf_dur_subs0", "inf_rate_subs0", "inf_dur_subs", "dose_subs0"):
+        # the dose of the dosing compartment becomes an infusion; *_subs*: a later transformation fixes its symbol
+        odes = m.statements.ode_system
+        comp = odes.dosing_compartments[0]
+        if t == "dose_subs0":      # whatever doses the compartment has now: their first free symbol becomes 0
+            doses = []
+            for dz in comp.doses:
+                fs = sorted(dz.free_symbols, key=str)
+                doses.append(dz.subs({fs[-1]: Expr.integer(0)}) if fs else dz)
+            doses = tuple(doses)
+        else:
+            which = "duration" if "dur" in t else "rate"
+            dose = PM.Infusion.create("AMT", **{which: "D1" if which == "duration" else "R1"})
+            if t.endswith("_subs0"):
+                dose = dose.subs({Expr.symbol("D1"): Expr.integer(0), Expr.symbol("R1"): Expr.integer(0)})
+            elif t.endswith("_subs"):
+                dose = dose.subs({Expr.symbol("D1"): Expr("TVD*2")})
+            doses = (dose,)
+        cb = PM.CompartmentalSystemBuilder(odes)
+        cb.set_dose(comp, doses)
+        return m.replace(statements=m.statements.before_odes + PM.CompartmentalSystem(cb) + m.statements.after_odes)
     if t == "toolopt":
         s = m.execution_steps[0].replace(tool_options={"NITER": 7, "PRINT": "2"})
         return m.replace(execution_steps=PM.ExecutionSteps.create([s]) + m.execution_steps[1:])
@@ -553,11 +602,14 @@ def make_comps(spec):
         doses = []
         for d in c["doses"]:
             if d[0] == "bolus":
-                doses.append(PM.Bolus.create(d[1], admid=d[2]))
+                dose, sub = PM.Bolus.create(d[1], admid=d[2]), d[3] if len(d) > 3 else None
             elif d[3] == "rate":
-                doses.append(PM.Infusion.create(d[1], admid=d[2], rate=d[4]))
+                dose, sub = PM.Infusion.create(d[1], admid=d[2], rate=d[4]), d[5] if len(d) > 5 else None
             else:
-                doses.append(PM.Infusion.create(d[1], admid=d[2], duration=d[4]))
+                dose, sub = PM.Infusion.create(d[1], admid=d[2], duration=d[4]), d[5] if len(d) > 5 else None
+            if sub:       # the dose is reached by a transformation: Dose.subs
+                dose = dose.subs({Expr.symbol(a): Expr(b) for a, b in sub.items()})
+            doses.append(dose)
         comps.append(PM.Compartment.create(c["name"], doses=tuple(doses), input=c["input"], lag_time=c["lag"],
                                            bioavailability=c["bio"]))
     return comps
@@ -1143,6 +1195,13 @@ def perturbations(rng, spec):
     if dosed:
         c2 = rng.choice(dosed)
         mk("dose-admid", lambda s: s["comps"][c2]["doses"][0].__setitem__(2, s["comps"][c2]["doses"][0][2] + 1))
+    infs = [(k2, j2) for k2, cc in enumerate(spec["comps"]) for j2, dz in enumerate(cc["doses"]) if dz[0] == "infusion"]
+    if infs:
+        ci, dj = rng.choice(infs)
+        # the same expression as rate instead of duration (or the reverse) is another dose
+        mk("dose-rate-vs-duration", lambda s: s["comps"][ci]["doses"][dj].__setitem__(
+            3, "duration" if s["comps"][ci]["doses"][dj][3] == "rate" else "rate"))
+        mk("dose-value", lambda s: s["comps"][ci]["doses"][dj].__setitem__(4, "(" + s["comps"][ci]["doses"][dj][4] + ") + 1"))
     rv = rng.randrange(len(spec["rvs"]))
     if spec["rvs"][rv][0] == "normal":
         mk("rv-level", lambda s: s["rvs"][rv].__setitem__(2, "RUV" if s["rvs"][rv][2] == "IIV" else "IIV"))
@@ -1196,6 +1255,18 @@ def run_case(case, drv):
     for st in m.statements:
         if isinstance(st, PM.Assignment):
             for e in (st.symbol, st.expression):
+                if Expr(e._sympy_()) != e:
+                    nonnormal.append(str(e))
+        else:
+            # the same for every expression an ODE system holds (flow rates, compartment fields, dose fields: a dose
+            # reached by subs may hold e.g. AMT/0.0 = oo*AMT)
+            es = [r for _, _, r in st._g.edges.data("rate")]
+            for n in st._g.nodes:
+                if isinstance(n, PM.Compartment):
+                    es += [n._amount, n._input, n._lag_time, n._bioavailability]
+                    for dz in n._doses:
+                        es += _dose_fields(dz)
+            for e in es:
                 if Expr(e._sympy_()) != e:
                     nonnormal.append(str(e))
     if nonnormal:
@@ -1394,6 +1465,9 @@ def run_case(case, drv):
             if a != "true":
                 k.append(f"model fromDict(toDict x) = some x fails on this {kind}: {a}")
 
+    # ---- doses: every dose of the model and doses reached from them by create / subs
+    dose_checks(m, rng, drv, k, mon, tags)
+
     # ---- K: builder op sequence vs the ordered-graph model
     if spec["kind"] == "gen" and drv is not None:
         comps = make_comps(spec)
@@ -1558,7 +1632,9 @@ def run_case(case, drv):
     if spec["kind"] == "gen":
         # single-field perturbations must change the hash
         perts = perturbations(rng, spec)
-        for field, s2 in rng.sample(perts, min(5, len(perts))):
+        dose_perts = [pp for pp in perts if pp[0] in ("dose-rate-vs-duration", "dose-value")]
+        other_perts = [pp for pp in perts if pp[0] not in ("dose-rate-vs-duration", "dose-value")]
+        for field, s2 in rng.sample(other_perts, min(5, len(other_perts))) + dose_perts[:1 + rng.randrange(2)] * 1:
             try:
                 m2, _ = build_model(s2)
             except Exception:
@@ -1607,6 +1683,134 @@ def run_case(case, drv):
                 else:
                     tags.append("order-variant-not-equal")
     return {"k": k, "mon": mon, "tags": tags, "nontrivial": nontrivial}
+
+
+def _dose_tag(x):
+    if isinstance(x, PM.Bolus):
+        return "bolus-zero-amount" if x._amount == 0 else "bolus"
+    which, v = ("rate", x._rate) if x._rate is not None else ("duration", x._duration)
+    if v is None:
+        return "infusion-neither"
+    kind = "zero" if v == 0 else "float-zero" if str(v) in ("0.0", "-0.0") else "number" if not v.free_symbols else "symbolic"
+    return f"infusion-{which}-{kind}"
+
+
+def _dose_fields(x):
+    return [e for e in (x._amount, getattr(x, "_rate", None), getattr(x, "_duration", None)) if e is not None]
+
+
+def dose_checks(m, rng, drv, k, mon, tags):
+    """Property clause: every component generated *or reachable by transformations* goes to a dict and back to an
+    equal object, and different components have different dicts (else different statements share a key).
+    Components here: the doses of the model, the doses reached from them by Dose.subs (a symbol of the dose becomes
+    0, 1, 0.0, another symbol, an expression), by Infusion.create on the same fields with rate and duration
+    exchanged, and the Compartment holding each of them."""
+    cs = m.statements.ode_system
+    if cs is None:
+        return
+    base = []
+    for n in cs._g.nodes:
+        if isinstance(n, PM.Compartment):
+            for x in n._doses:
+                base.append((n, x, "model"))
+    if not base:
+        return
+    reached = []
+    for comp, x, _ in base:
+        fs = sorted(x.free_symbols, key=str)
+        vals = rng.sample(DOSE_SUBS_VALUES + ["0"], 2) + ["0"]
+        for val in dict.fromkeys(vals):
+            for sym in ([rng.choice(fs)] if fs else []) + ([fs[-1]] if fs else []):
+                sub = {sym: Expr(val)}
+                try:
+                    y = x.subs(sub)
+                except Exception as e:
+                    tags.append(f"dose-subs-refused:{type(e).__name__}")
+                    continue
+                reached.append((comp, y, f"{x!r}.subs({{{sym}: {val}}})"))
+                # K: the structure of Dose.subs (which fields are mapped, which of rate/duration stays) vs the model
+                if drv is not None:
+                    table = [[ser(e), ser(e.subs(sub))] for e in _dose_fields(x)]
+                    a = drv.ask(["dosesubs", w_dose(x), table])
+                    want = ["ok", dumps(y.to_dict())]
+                    if a != want:
+                        k.append(f"Dose.subs: {x!r}.subs({{{sym}: {val}}}): model {str(a)[:200]} code {want[1][:200]}")
+                    tags.append("q:dosesubs")
+        if isinstance(x, PM.Infusion):
+            v = x._rate if x._rate is not None else x._duration
+            try:
+                y = PM.Infusion.create(x._amount, admid=x._admid, **({"duration": v} if x._rate is not None else {"rate": v}))
+                reached.append((comp, y, f"Infusion.create with rate and duration of {x!r} exchanged"))
+            except Exception as e:
+                tags.append(f"dose-create-refused:{type(e).__name__}")
+    # K: Infusion.create (exactly one of rate / duration; fields stored as given)
+    if drv is not None:
+        for comp, x, _ in base[:2]:
+            pool = [e for e in _dose_fields(x)] + [Expr.integer(0), Expr.integer(1)]
+            for _ in range(3):
+                r = rng.choice([None, rng.choice(pool)])
+                d = rng.choice([None, rng.choice(pool)])
+                try:
+                    code = ["ok", dumps(PM.Infusion.create(x._amount, admid=x._admid, rate=r, duration=d).to_dict())]
+                except ValueError:
+                    code = ["err", "ValueError"]
+                a = drv.ask(["infcreate", ser(x._amount), x._admid, opt(None if r is None else ser(r)), opt(None if d is None else ser(d))])
+                if a != code:
+                    k.append(f"Infusion.create(rate={r}, duration={d}): model {str(a)[:200]} code {str(code)[:200]}")
+                tags.append("q:infcreate:" + code[0])
+    seen = {}
+    for comp, x, how in base + reached:
+        tags.append("dose:" + ("model:" if how == "model" else "reached:") + _dose_tag(x))
+        where = "" if how == "model" else f" (reached by {how})"
+        nonnormal = any(Expr(e._sympy_()) != e for e in _dose_fields(x))
+        try:
+            d = x.to_dict()
+            js = dumps(d)
+        except Exception as e:
+            mon.append({"cls": "dose-to-dict-raises", "what": f"{x!r}.to_dict() raised {type(e).__name__}: {e}{where}"})
+            continue
+        if norm_tl(json.loads(js)) != norm_tl(d):
+            mon.append({"cls": "json-not-fixpoint", "what": f"json.loads(json.dumps(d)) != d for the dose {x!r}{where}"})
+        if drv is not None:
+            a = drv.ask(["todict", "dose", w_dose(x)])
+            if a != ["ok", js]:
+                k.append(f"to_dict(dose {x!r}): model {str(a)[:200]} code {js[:200]}")
+            a = drv.ask(["rteq", "dose", w_dose(x)])
+            if a != "true":
+                k.append(f"model fromDict(toDict x) = some x fails on the dose {x!r}: {a}")
+        for via, dd in (("to_dict", d), ("JSON text", json.loads(js))):
+            try:
+                back = type(x).from_dict(dd)
+            except Exception as e:
+                mon.append({"cls": "dose-from-dict-raises",
+                            "what": f"{type(x).__name__}.from_dict({via} of {x!r}) raised {type(e).__name__}: {e}{where}"})
+                break
+            if not (back == x):
+                if nonnormal:
+                    mon.append({"cls": "roundtrip-expr-not-sympy-normal",
+                                "what": f"{type(x).__name__}.from_dict(x.to_dict()) != x for {x!r}: a field is not a fixpoint of symengine->sympy->symengine"})
+                else:
+                    mon.append({"cls": "dose-roundtrip-not-equal",
+                                "what": f"{type(x).__name__}.from_dict({via} of x) != x for x = {x!r}{where}: came back as {back!r} "
+                                        f"(rate={getattr(back, 'rate', None)!r}, duration={getattr(back, 'duration', None)!r})"})
+                break
+        # the compartment holding the dose
+        if not nonnormal:
+            try:
+                c2 = comp.replace(doses=(x,))
+                cb = PM.Compartment.from_dict(json.loads(dumps(c2.to_dict())))
+                if not (cb == c2) and PM.Compartment.from_dict(json.loads(dumps(comp.replace(doses=()).to_dict()))) == comp.replace(doses=()):
+                    mon.append({"cls": "compartment-roundtrip-not-equal",
+                                "what": f"Compartment.from_dict(to_dict(c)) != c for compartment {comp.name} with the dose {x!r}{where}"})
+            except Exception as e:
+                mon.append({"cls": "dose-from-dict-raises", "what": f"Compartment round trip with dose {x!r} raised {type(e).__name__}: {e}{where}"})
+        # different doses, different dicts
+        for js2, (y, how2) in seen.items():
+            if js2 == js and not (y == x):
+                mon.append({"cls": "dose-to-dict-collision",
+                            "what": f"the different doses {x!r}{where} and {y!r}" + ("" if how2 == "model" else f" (reached by {how2})")
+                                    + f" have the same to_dict {js}; statements holding them get the same ModelHash"})
+        seen.setdefault(js, (x, how))
 
 
 def _names(ders):
